@@ -3,7 +3,36 @@
 //                                "<c> new ..." replaces it.  Exactly one output line per input line.
 //   pf <op> ...                  a FOREST of pools (hierarchy x reference counting), pools named by order of creation
 // iwhmap.c / iwpool.c are included so that the private structs (buckets, lru chain, unit chain) can be printed.
+// hm: allocation-failure injection for iwhmap.c ONLY.  Every malloc / calloc / realloc / strdup / free of iwhmap.c goes
+// through the hm_*_hook functions (defined in the hash map section): `hm failat <n> <sites>` makes the n-th allocation call
+// from now on whose site is in <sites> return 0 with errno = ENOMEM (one shot).  Sites, by calling function:
+//   chm cbk (iwhmap_create: malloc, calloc)  add (_entry_add called by put / rename)  readd (_entry_add inside _rehash)
+//   rehash (_rehash: calloc)  node (_lru_entry_update: malloc)  shrink (_entry_remove: realloc)  clear (iwhmap_clear: realloc)
+//   strdup (iwhmap_put_str)
+#include <stdlib.h>
+#include <string.h>
+#include <errno.h>
+#include <assert.h>
+#include "iwhmap.h"
+#include "iwlog.h"
+#include "wyhash32.h"
+static void *hm_malloc_hook(size_t n, const char *fn);
+static void *hm_calloc_hook(size_t c, size_t n, const char *fn);
+static void *hm_realloc_hook(void *p, size_t n, const char *fn);
+static char *hm_strdup_hook(const char *s, const char *fn);
+static void hm_free_hook(void *p, const char *fn);
+#undef strdup
+#define malloc(n_) hm_malloc_hook(n_, __func__)
+#define calloc(c_, n_) hm_calloc_hook(c_, n_, __func__)
+#define realloc(p_, n_) hm_realloc_hook(p_, n_, __func__)
+#define strdup(s_) hm_strdup_hook(s_, __func__)
+#define free(p_) hm_free_hook(p_, __func__)
 #include "utils/iwhmap.c"
+#undef malloc
+#undef calloc
+#undef realloc
+#undef strdup
+#undef free
 // every free() issued by iwpool.c goes through po_free_hook (defined in the pool section below): it tells the harness which
 // pool struct / how many unit blocks are released and in which order, and - in the build without ASan - it fills the block
 // with 0xDD and keeps it in a quarantine instead of recycling it (a read through a stale pointer yields 0xDDDD... and
@@ -48,6 +77,61 @@ static size_t flen;
 static int hm_kind; // 0 u32, 1 u64, 2 str, 3 ptr, 4 skv (str keys, kv_free_fn = iwhmap_kv_free: no callback log)
 #define HM_STR (hm_kind == 2 || hm_kind == 4)
 static struct iwhmap *hm;
+
+// ---- allocation-failure injection (see the top of the file)
+enum { HS_CHM, HS_CBK, HS_ADD, HS_READD, HS_REHASH, HS_NODE, HS_SHRINK, HS_CLEAR, HS_STRDUP, HS_N };
+static const char *hs_name[HS_N] = { "chm", "cbk", "add", "readd", "rehash", "node", "shrink", "clear", "strdup" };
+static long hm_fail_n;          // > 0: armed, counts down on every matching site
+static unsigned hm_fail_sites;  // bit set of sites that count
+static char hm_af[64];          // sites that failed during the current line
+static int hm_in_rehash;        // between the successful calloc of _rehash and its last free
+static void *hm_rh_new, *hm_rh_old;
+
+static int hm_fails(int site) {
+  if (hm_fail_n > 0 && (hm_fail_sites & (1u << site)) && --hm_fail_n == 0) {
+    size_t l = strlen(hm_af);
+    snprintf(hm_af + l, sizeof(hm_af) - l, "%s%s", l ? "," : "", hs_name[site]);
+    errno = ENOMEM;
+    return 1;
+  }
+  return 0;
+}
+
+static void put_af(void) {
+  if (hm_af[0]) printf(" af=%s", hm_af);
+  hm_af[0] = 0;
+}
+
+static void *hm_malloc_hook(size_t n, const char *fn) {
+  int site = !strcmp(fn, "iwhmap_create") ? HS_CHM : !strcmp(fn, "_lru_entry_update") ? HS_NODE : -1;
+  if (site >= 0 && hm_fails(site)) return 0;
+  return malloc(n);
+}
+
+static void *hm_calloc_hook(size_t c, size_t n, const char *fn) {
+  int site = !strcmp(fn, "iwhmap_create") ? HS_CBK : !strcmp(fn, "_rehash") ? HS_REHASH : -1;
+  if (site >= 0 && hm_fails(site)) return 0;
+  void *p = calloc(c, n);
+  if (site == HS_REHASH && p) { hm_in_rehash = 1; hm_rh_new = p; hm_rh_old = hm ? hm->buckets : 0; }
+  return p;
+}
+
+static void *hm_realloc_hook(void *p, size_t n, const char *fn) {
+  int site = !strcmp(fn, "_entry_add") ? (hm_in_rehash ? HS_READD : HS_ADD) : !strcmp(fn, "_entry_remove") ? HS_SHRINK
+             : !strcmp(fn, "iwhmap_clear") ? HS_CLEAR : -1;
+  if (site >= 0 && hm_fails(site)) return 0;
+  return realloc(p, n);
+}
+
+static char *hm_strdup_hook(const char *s_, const char *fn) {
+  if (!strcmp(fn, "iwhmap_put_str") && hm_fails(HS_STRDUP)) return 0;
+  return strdup(s_);
+}
+
+static void hm_free_hook(void *p, const char *fn) {
+  if (hm_in_rehash && !strcmp(fn, "_rehash") && p && (p == hm_rh_new || p == hm_rh_old)) hm_in_rehash = 0;
+  free(p);
+}
 
 static void flog_add(const char *s) {
   size_t l = strlen(s);
@@ -107,8 +191,27 @@ static void hm_line(int n, char **tv) {
     hm = hm_kind == 0 ? iwhmap_create_u32(hm_free_cb) : hm_kind == 1 ? iwhmap_create_u64(hm_free_cb)
          : hm_kind == 2 ? iwhmap_create_str(hm_free_cb) : hm_kind == 4 ? iwhmap_create_str(iwhmap_kv_free)
          : iwhmap_create(0, hm_ptr_hash, hm_free_cb);
+    if (!hm) { printf("null"); put_af(); printf("\n"); return; }   // allocation failure in iwhmap_create
     if (lru >= 0) iwhmap_lru_init(hm, iwhmap_lru_eviction_max_count, (void*) (uintptr_t) lru);
     printf("ok\n");
+    return;
+  }
+  if (!strcmp(op, "failat")) {           // hm failat <n> <all | site,site,...>: the n-th matching allocation from now on fails
+    hm_fail_n = strtol(tv[2], 0, 10);
+    hm_fail_sites = 0;
+    for (int i = 0; i < HS_N; ++i) {
+      const char *f = strstr(tv[3], hs_name[i]);
+      // "add" is a suffix of "readd": accept a match only at the start of a list element
+      while (f && f != tv[3] && f[-1] != ',') f = strstr(f + 1, hs_name[i]);
+      if (!strcmp(tv[3], "all") || f) hm_fail_sites |= 1u << i;
+    }
+    hm_af[0] = 0;
+    printf("ok\n");
+    return;
+  }
+  if (!strcmp(op, "failoff")) {
+    printf("ok\n");
+    hm_fail_n = 0; hm_af[0] = 0;
     return;
   }
   // header functions that need no live map
@@ -152,16 +255,17 @@ static void hm_line(int n, char **tv) {
     void *v = mkval(tv[3]);
     iwrc rc = hm_kind == 0 ? iwhmap_put_u32(hm, (uint32_t) k, v) : hm_kind == 1 ? iwhmap_put_u64(hm, k, v)
               : HM_STR ? iwhmap_put_str(hm, (char*) ks, v) : iwhmap_put(hm, (void*) (uintptr_t) k, v);
-    printf("rc=%s n=%u", rcs(rc), iwhmap_count(hm)); put_flog(); printf("\n");
+    if (rc && v) free(v);   // a failed put leaves key and value with the caller
+    printf("rc=%s n=%u", rcs(rc), iwhmap_count(hm)); put_flog(); put_af(); printf("\n");
   } else if (!strcmp(op, "get")) {
     void *v = hm_kind == 0 ? iwhmap_get_u32(hm, (uint32_t) k) : hm_kind == 1 ? iwhmap_get_u64(hm, k)
               : HM_STR ? iwhmap_get(hm, ks) : iwhmap_get(hm, (void*) (uintptr_t) k);
     if (v) printf("v=%" PRId64, *(int64_t*) v); else printf("v=nil");
-    printf(" n=%u", iwhmap_count(hm)); put_flog(); printf("\n");
+    printf(" n=%u", iwhmap_count(hm)); put_flog(); put_af(); printf("\n");
   } else if (!strcmp(op, "rm")) {
     bool r = hm_kind == 0 ? iwhmap_remove_u32(hm, (uint32_t) k) : hm_kind == 1 ? iwhmap_remove_u64(hm, k)
              : HM_STR ? iwhmap_remove(hm, ks) : iwhmap_remove(hm, (void*) (uintptr_t) k);
-    printf("r=%d n=%u", (int) r, iwhmap_count(hm)); put_flog(); printf("\n");
+    printf("r=%d n=%u", (int) r, iwhmap_count(hm)); put_flog(); put_af(); printf("\n");
   } else if (!strcmp(op, "ren")) {
     iwrc rc;
     if (HM_STR) {
@@ -170,15 +274,15 @@ static void hm_line(int n, char **tv) {
       bool have = _entry_find(hm, ks, hm->hash_key_fn(ks)) != 0;
       char *nk = strdup((char*) ks2);
       rc = iwhmap_rename(hm, ks, nk);
-      if (!have) free(nk);
+      if (!have || rc) free(nk);   // ... and only when the call succeeded
     } else {
       k2 = strtoull(tv[3], 0, 10);
       rc = iwhmap_rename(hm, (void*) (uintptr_t) k, (void*) (uintptr_t) k2);
     }
-    printf("rc=%s n=%u", rcs(rc), iwhmap_count(hm)); put_flog(); printf("\n");
+    printf("rc=%s n=%u", rcs(rc), iwhmap_count(hm)); put_flog(); put_af(); printf("\n");
   } else if (!strcmp(op, "clear")) {
     iwhmap_clear(hm);
-    printf("n=%u", iwhmap_count(hm)); put_flog(); printf("\n");
+    printf("n=%u", iwhmap_count(hm)); put_flog(); put_af(); printf("\n");
   } else if (!strcmp(op, "count")) {
     printf("n=%u\n", iwhmap_count(hm));
   } else if (!strcmp(op, "iter") || !strcmp(op, "iterx")) {
@@ -231,7 +335,7 @@ static void hm_line(int n, char **tv) {
     printf("\n");
   } else if (!strcmp(op, "destroy")) {
     iwhmap_destroy(hm); hm = 0;
-    printf("d"); put_flog(); printf("\n");
+    printf("d"); put_flog(); put_af(); printf("\n");
   } else {
     printf("?\n");
   }
